@@ -73,6 +73,7 @@ def run_rules(prop, root, tier, only_rule=None, repo=None, use_reference=True, s
   own = list(specs)
   extra = shared_specs(prop) if shared and not os.environ.get('VF_NO_SHARED') else []
   known_keys = {(k.get('rule'), k.get('construct_key')) for k in report.load_known() if k.get('status') == 'known'}
+  ctx.shared_run = [sp.id for sp in extra]
   for spec in own + extra:
     if only_rule and spec.id != only_rule:
       continue
@@ -165,6 +166,7 @@ def evidence_for(prop, ctx, errors, tier, seed, wall, viol, kn, selftest=None):
       'explanation': meta.get('explanation', 'repository-specific static rules over AST/CFG/call graph'),
       'decided_clauses': [s.id + ' ' + s.title for s in specs],
       'not_decided': meta.get('not_decided', []),
+      'shared_rules_run_violation_only': getattr(ctx, 'shared_run', []),
       'obligations': len(insts),
       'discharged': held,
       'evaluations': len(insts),
